@@ -1199,6 +1199,17 @@ class View:
     def get(self, name, default=None):
         return self.state.env.get(name, default)
 
+    def working_tt(self, preferred, params=('self',)):
+        """the local tensor train a method works on (`tt_conj`, `tdot`, ...): looked up by its usual name first and,
+        if that local was renamed, as the unique TT-valued local that is not bound to a parameter name"""
+        env = self.state.env
+        if isinstance(env.get(preferred), STT):
+            return env[preferred]
+        cands = {id(v): v for k, v in env.items() if isinstance(v, STT) and k not in params}
+        if len(cands) == 1:
+            return list(cands.values())[0]
+        raise Unsupported('cannot identify the working tensor train of the loop (expected local `%s`)' % preferred)
+
     def old(self, name):
         return self.state.old[name]
 
